@@ -170,7 +170,7 @@ func c09Format4(r *run.Run) {
 
 func c09Format12(r *run.Run) {
 	codes := []uint32{0, 1, 2, 0xFFFF, 0x10000, 0x10001, 0x10FFFF}
-	r.Explore(explore.Config{Name: "C09.format12-window"},
+	r.Explore(explore.Config{Name: "C09.format12-window", Bound: 1},
 		"all maps over {0,1,2,0xFFFF,0x10000,0x10001,0x10FFFF} x {unmapped, consecutive, other, same-gap-as-codes}; Encode then library decode == specification decode == original for the window and its neighbours",
 		func(c *explore.Ctx) {
 			m := map[uint32]uint16{}
